@@ -450,6 +450,31 @@ fn history(sink: &mut Sink, r: &mut Rng, which: Which, scratch: &str, bin: &str,
             }
         }
         let _ = &mut prev_auto;
+        // ---------------- C09 probes on the unchanged state right after a whole update
+        if which == Which::C09 && pred.is_none() && rc != 2 && step.root.is_none() && step.files.is_empty() && matches!(step.update, Some("all") | Some("new")) {
+            write_config(&p, None, false, false);
+            // round trip: a baseline check of the unchanged state reports every recordable violation as grandfathered
+            let (_, pout, _) = p.run(&["check".into(), "--format".into(), "json".into(), "--no-sloc-cache".into(), "--baseline".into(), bl.into()], 1);
+            if let Some(pr) = parse_results(&pout) {
+                if let Some(x) = pr.iter().find(|x| x.status == "failed" && x.kind != 'o') {
+                    pred = Some(format!("round trip: after --update-baseline={} a baseline check of the unchanged state reports the {} violation at {} as failed", step.update.unwrap_or("-"), match x.kind { 'c' => "line-count", 'f' => "file-count", _ => "sub-directory-count" }, x.path));
+                }
+            }
+            // idempotence: an update of the unchanged state from scratch yields the same entries
+            if step.update == Some("all") && pred.is_none() {
+                let probe = format!("../probe-{}.json", std::process::id());
+                let _ = std::fs::remove_file(p.dir.join(&probe));
+                let _ = p.run(&["check".into(), "--format".into(), "json".into(), "--no-sloc-cache".into(), "--baseline".into(), probe.clone(), "--update-baseline=all".into()], 1);
+                let fresh = p.baseline(&probe);
+                let _ = std::fs::remove_file(p.dir.join(&probe));
+                if fresh.is_some() && fresh != after {
+                    let (f, a) = (fresh.unwrap_or_default(), after.clone().unwrap_or_default());
+                    let k = f.keys().chain(a.keys()).find(|k| f.get(*k) != a.get(*k)).cloned().unwrap_or_default();
+                    pred = Some(format!("idempotence: updating the unchanged state without the existing baseline gives another entry for {k}: {:?} (fresh) vs {:?} (updated with the baseline loaded)", f.get(&k), a.get(&k)));
+                }
+            }
+            write_config(&p, if step.ratchet_by_config { step.ratchet } else { None }, step.fail_fast && step.ff_by_config, step.wae);
+        }
         // ---------------- model request
         let upd = step.update.unwrap_or("-");
         let rat = step.ratchet.unwrap_or("-");
